@@ -542,6 +542,22 @@ carquet_column_reader_t* carquet_reader_get_column(
     int32_t schema_idx = reader->schema->leaf_indices[column_index];
     const parquet_schema_element_t* schema_elem = &reader->schema->elements[schema_idx];
 
+    /* The chunk's physical type decides how wide the values written into the
+     * caller's buffer are, while callers size that buffer from the schema.
+     * The two must agree (and be types this reader knows). */
+    if (!schema_elem->has_type ||
+        col_reader->col_meta->type != schema_elem->type ||
+        (int)schema_elem->type < 0 ||
+        schema_elem->type > CARQUET_PHYSICAL_FIXED_LEN_BYTE_ARRAY ||
+        (schema_elem->type == CARQUET_PHYSICAL_FIXED_LEN_BYTE_ARRAY &&
+         schema_elem->type_length <= 0) ||
+        col_reader->col_meta->num_values < 0) {
+        free(col_reader);
+        CARQUET_SET_ERROR(error, CARQUET_ERROR_INVALID_METADATA,
+            "Column chunk metadata inconsistent with schema");
+        return NULL;
+    }
+
     col_reader->max_def_level = reader->schema->max_def_levels[column_index];
     col_reader->max_rep_level = reader->schema->max_rep_levels[column_index];
     col_reader->type = col_reader->col_meta->type;
